@@ -12,7 +12,7 @@ LEVEL = "fault_enumeration"
 MANIFEST = dict(
     engine="E3-netsim", engine_path="vlib/netsim.py",
     kind="real Bridge (through its real registration handshake) and real Executor.recv_loop over an in-memory zmq shim with a virtual clock; per-frame drop / duplicate / hold plans on data frames and acknowledgements; offline exactly-once checker over the recorded send/deliver history",
-    technique="offline history checker at the boundary of the acknowledged layer: call events = ReliableSender.send on both endpoints, delivery events = messages returned by the peer's Listener.recv_messages; every message carries a unique dataset id; under seeded per-frame fault plans (finite loss, duplication, delay, partition, and a busy-link class in which both inbound links receive fresh traffic for longer than the whole retry budget so that no blocking poll ever times out) each history is driven to quiescence through the real loops and checked: delivered exactly once, or at most once and the sender raised within the retry budget; the real Listener is also fed streams of both acknowledged frame shapes ([Syn, message] and the [Syn, header, value] dataset payloads of send_data) from several senders with every transmission repeated 1-3 times and interleaved: each distinct (sender, idx) must be handed over exactly once and every copy acknowledged; malformed frame lists fed to Listener._recv_one must raise",
+    technique="offline history checker at the boundary of the acknowledged layer: call events = ReliableSender.send on both endpoints, delivery events = messages returned by the peer's Listener.recv_messages; every message carries a unique dataset id; under seeded per-frame fault plans (finite loss, duplication, delay, partition, and a busy-link class in which both inbound links receive fresh traffic for longer than the whole retry budget so that no blocking poll ever times out, in part of them with ONE message whose every transmission is dropped while the rest gets through) each history is driven to quiescence through the real loops and checked: delivered exactly once, or at most once and the sender raised within the retry budget; the real Listener is also fed streams of both acknowledged frame shapes ([Syn, message] and the [Syn, header, value] dataset payloads of send_data) from several senders with every transmission repeated 1-3 times and interleaved: each distinct (sender, idx) must be handed over exactly once and every copy acknowledged; malformed frame lists fed to Listener._recv_one must raise",
     text="Held = in every history explored every message was delivered exactly once (finite-loss plans, no sender gave up) or at most once with a bounded raise (partition plans); no duplicate delivery, no silent loss, no foreign delivery; every malformed frame list was rejected.",
     note="NetSim replaces zmq and time inside cascade.executor.comms (and time in bridge); loops run one iteration at a time, single-threaded; faults apply only to frames of the acknowledged layer and to Acks; a second tier (vlib/lossyzmq.py) runs the same endpoints over real zmq TCP sockets behind a dropping / duplicating / delaying proxy, one history per process, in both tiers; a give-up in real time is inconclusive for that history.",
 )
